@@ -54,6 +54,8 @@ def answers_alone(shape, binding):
 
 
 def run(sc):
+    if sc.get('kind') == 'bound_arg':
+        return run_bound(sc)
     shape, b1, b2, order = sc['shape'], sc['b1'], sc['b2'], sc['order']
     if sc.get('compiled'):
         yp = engine.YP()
@@ -90,9 +92,61 @@ def run(sc):
     return got == want, 'fact f(%s), queries %s / %s interleaved %s: answers %s, alone %s' % (shape, b1, b2, order, got, want)
 
 
+def run_bound(sc):
+    """a fact asserted through the Python API while its argument is a BOUND variable (directly or through a chain of variables)
+    holds the value of that moment: after the binding is undone, or replaced by another one, it still matches that value only"""
+    yp = engine.YP()
+    X, Y, W = yp.variable(), yp.variable(), yp.variable()
+    vals = {'atom': lambda: yp.atom('a'), 'int': lambda: 7, 'struct': lambda: yp.functor('g', [yp.atom('a')]),
+            'structvar': lambda: yp.functor('g', [W])}
+    val = vals[sc['value']]()
+    other = yp.atom('zzz')
+    steps = [(X, Y), (Y, val)] if sc['chain'] else [(X, val)]
+
+    def nest(i):
+        if i == len(steps):
+            yp.assert_fact(yp.atom('s'), [X] if not sc.get('second') else [other, X])
+            return
+        for _ in engine.unify(steps[i][0], steps[i][1]):
+            nest(i + 1)
+    if sc['value'] == 'structvar':
+        for _ in engine.unify(W, yp.atom('a')):
+            nest(0)
+    else:
+        nest(0)
+    arity = 2 if sc.get('second') else 1
+
+    def count(arg):
+        return len(list(yp.query('s', [arg] if arity == 1 else [other, arg])))
+    probs = []
+    if engine.get_value(X) is not X:
+        probs.append('X is still bound after the loops')
+
+    def check(when):
+        want_val = vals['struct' if sc['value'] == 'structvar' else sc['value']]()
+        if count(want_val) != 1:
+            probs.append('%s: the fact does not match the value it was asserted with' % when)
+        if count(yp.atom('nomatch')) != 0:
+            probs.append('%s: the fact matches another value' % when)
+        Z = yp.variable()
+        got = [engine.to_python(Z) for _ in yp.query('s', [Z] if arity == 1 else [other, Z])]
+        if got != [engine.to_python(want_val)]:
+            probs.append('%s: s(Z) gives %r, asserted with %r' % (when, got, engine.to_python(want_val)))
+    check('after the binding was undone')
+    if sc['rebind']:
+        for _ in engine.unify(X, yp.atom('nomatch')):
+            check('while the variable is bound to another value')
+    return not probs, '; '.join(probs) or 'ok'
+
+
 def scenarios(seed, count):
     rng = random.Random(seed)
     out = []
+    for value in ('atom', 'int', 'struct', 'structvar'):
+        for chain in (False, True):
+            for rebind in (False, True):
+                for second in (False, True):
+                    out.append(dict(kind='bound_arg', value=value, chain=chain, rebind=rebind, second=second))
     consts = ['a', 'b', 'k']
     for shape in SHAPES:
         vs = sorted(set(c for c in shape if c in 'VW'))
@@ -120,14 +174,14 @@ def main():
     for sc in scs:
         ok, detail = run(sc)
         n += 1
-        if sc['b1'] != sc['b2']:
+        if sc.get('kind') == 'bound_arg' or sc['b1'] != sc['b2']:
             nontriv.add(json.dumps(sc, sort_keys=True))
         if not ok and len(fails) < 20:
             fails.append(dict(scenario=sc, detail=detail))
     print(json.dumps(dict(evaluations=n, distinct_nontrivial=len(nontriv), failures=fails, failure_count=len(fails), samples=scs[:3],
-                          exhaustive=count >= 405,
+                          exhaustive=count >= 437,
                           rule='9 fact shapes (variables at depth 0-2, repeated, two variables) x 3x3 constant choices for the two uses x 4 interleavings '
-                               '+ compiled conjunction (405 scenarios, shuffled by seed); non-trivial = the two uses bind the fact variables differently')))
+                               '+ compiled conjunction (405 scenarios) + 32 facts asserted through the API with a bound variable argument (value kind x chain x later rebinding x position), shuffled by seed; non-trivial = the two uses bind the fact variables differently')))
 
 
 if __name__ == '__main__':
